@@ -145,6 +145,13 @@ impl<T> Members<T> {
     }
 }
 
+#[cfg(feature = "verif-hooks")]
+impl<T> Members<T> {
+    pub(crate) fn verif_cursor(&self) -> usize {
+        self.cursor
+    }
+}
+
 impl<T> Members<T>
 where
     T: PartialEq + Clone + crate::Identity,
